@@ -72,7 +72,9 @@ class ChainCZ:
 
     def meta(self, tok):
         if tok not in self.metas:
-            self.metas[tok] = copy.deepcopy(self.rng.choice(META_POOL))
+            md = copy.deepcopy(self.rng.choice(META_POOL))
+            md["uid"] = len(self.metas)          # distinct tokens get distinguishable metadata
+            self.metas[tok] = md
         return self.metas[tok]
 
     def rbf(self, x):
